@@ -223,6 +223,9 @@ def step (d : DState) (line : String) : DState × List String :=
       | .ok s => ({ d with st := s }, ["ok", "st " ++ stateD s])
       | .error e => (d, ["err " ++ e.name, "st " ++ stateD d.st])
     | none => (d, ["bad-op"])
+  | ["delr", i] =>
+    let r := d.st.deleteRegion (String.ofList (unhexs i))
+    ({ d with st := r.1 }, ["ok " ++ b01 r.2, "st " ++ stateD r.1])
   | ["g", cmd, gcode] =>
     match handleGcodeText d.cfg inchF d.st (unhexs cmd) (unhexs gcode) with
     | .ok (s, r) => ({ d with st := s }, [resultD r, "st " ++ stateD s])
